@@ -20,7 +20,7 @@ import (
 //	[112,120) written by the host functions of module "env" THROUGH THE api.Module THEY ARE HANDED
 //	[256,504) fd_readdir windows, bufused values, cursor and previous cookie of `ls`
 //	[128,208) WASI scratch, initialised by active data segment 2 (iovecs, path "f")
-//	[65536..) marker written by `grow` into the first grown page
+//	[232,236) of the LAST page: mirror of the store cell (so grown pages carry state); `grow` itself writes nothing
 //
 // Table 0: funcref min 4 max 6; active element segment 0 puts fA at [0]; PASSIVE element segment 1 is
 // [fB, fA]. fA returns 1000*(v+1)+g0, fB returns 2000*(v+1)+mem8[8]: what a table entry returns when
@@ -43,7 +43,8 @@ const (
 	aClk0   = 184
 	aClk1   = 192
 	aRand   = 200
-	aMarker = 65536
+	aLast   = 232 // offset in the LAST page at which `store` mirrors its cell
+	aMarker = 65536 + aLast
 	// fd_readdir windows of `ls`
 	aDirA   = 256 // 64 bytes: re-read from the cookie of the previous ls's last window
 	aDirB   = 320 // 64 bytes: window at the cursor
@@ -56,8 +57,8 @@ const (
 
 // opNames is the per-instance alphabet, in enumeration order.
 var opNames = []string{
-	"store",    // v=i32.load[8]; i32.store[8]=v*5+3+variant; returns v             (store / load)
-	"grow",     // memory.grow 1; on success i32.store[65536]=0xC0DE+old; returns old size or -1
+	"store",    // v=i32.load[8]; i32.store[8]=v*5+3+variant; also mirrored into the last page; returns v (store / load)
+	"grow",     // memory.grow 1; returns old size or -1 (+1<<32 if the new page does not read as zero)
 	"bulk",     // memory.fill [64,80) with mem8[8]; memory.copy [96,112) <- [0,16)            (memory.fill/copy)
 	"minit",    // memory.init seg1 -> [32,48)   (traps once seg1 is dropped)
 	"ddrop",    // data.drop seg1
@@ -126,18 +127,28 @@ func guestModule(variant, shape int) []byte {
 		m.ExportFunc(name, m.AddFunc(nil, []byte{i64}, locals, a.B))
 	}
 
-	// store
+	// store: also writes the new value at offset aLast of the LAST page (page 0 when the memory was never grown), so
+	// that grown pages carry instance state
 	def("store", []byte{i32}, ext((&wb.Asm{}).
 		I32Const(aStore).Mem(0x28, 2, 0).LocalSet(0).
 		I32Const(aStore).LocalGet(0).I32Const(5).Op(0x6c).I32Const(3+v).Op(0x6a).Mem(0x36, 2, 0).
+		MemorySize().I32Const(1).Op(0x6b).I32Const(16).Op(0x74). // (size-1)<<16
+		I32Const(aStore).Mem(0x28, 2, 0).Mem(0x36, 2, uint64(aLast)).
 		LocalGet(0)))
-	// grow
-	def("grow", []byte{i32}, (&wb.Asm{}).
-		I32Const(1).MemoryGrow().LocalTee(0).I32Const(-1).Op(0x47). // old != -1
-		If(wb.Void).
-		I32Const(aMarker).I32Const(0xC0DE).LocalGet(0).Op(0x6a).Mem(0x36, 2, 0).
-		End().
-		LocalGet(0).Op(0xac)) // i64.extend_i32_s
+	// grow: writes nothing. Returns the old size (or -1), plus 1<<32 if the guest sees a non-zero word at the
+	// start, at aLast or at the end of the page it has just been given (a lone instance never does)
+	def("grow", []byte{i32, i32}, (&wb.Asm{}).
+		I32Const(1).MemoryGrow().LocalTee(0).Op(0xac). // i64.extend_i32_s(old)
+		LocalGet(0).I32Const(-1).Op(0x47).             // old != -1
+		If(i64).
+		LocalGet(0).I32Const(16).Op(0x74).LocalSet(1).
+		LocalGet(1).Mem(0x29, 3, 0).
+		LocalGet(1).Mem(0x29, 3, uint64(aLast)).Op(0x84).
+		LocalGet(1).Mem(0x29, 3, 65528).Op(0x84).
+		I64Const(0).Op(0x52). // i64.ne
+		Op(0xad).I64Const(32).Op(0x86).
+		Else().I64Const(0).End().
+		Op(0x7c))
 	// bulk = fill + copy
 	def("bulk", nil, (&wb.Asm{}).
 		I32Const(aFill).I32Const(aStore).Mem(0x2d, 0, 0).I32Const(16).MemoryFill().
@@ -293,12 +304,7 @@ func guestModule(variant, shape int) []byte {
 		wb.Export{Name: "g1", Kind: wb.KindGlobal, Idx: g1},
 		wb.Export{Name: "table", Kind: wb.KindTable, Idx: 0},
 	)
-	scratch := make([]byte, 80)
-	binary.LittleEndian.PutUint32(scratch[aIovW-128:], 0)
-	binary.LittleEndian.PutUint32(scratch[aIovW-128+4:], 16)
-	scratch[aPath-128] = 'f'
-	binary.LittleEndian.PutUint32(scratch[aIovR-128:], aRdBuf)
-	binary.LittleEndian.PutUint32(scratch[aIovR-128+4:], 4)
+	scratch := guestScratch()
 	act := []byte("A0-active-seg!!!")
 	pas := []byte("P0-passive-seg!!")
 	act[1] += byte(variant)
@@ -338,4 +344,15 @@ func guestModule(variant, shape int) []byte {
 		panic("bad shape")
 	}
 	return m.Encode()
+}
+
+// guestScratch is the initial content of the WASI scratch area [128,208): iovecs and the path "f".
+func guestScratch() []byte {
+	scratch := make([]byte, 80)
+	binary.LittleEndian.PutUint32(scratch[aIovW-128:], 0)
+	binary.LittleEndian.PutUint32(scratch[aIovW-128+4:], 16)
+	scratch[aPath-128] = 'f'
+	binary.LittleEndian.PutUint32(scratch[aIovR-128:], aRdBuf)
+	binary.LittleEndian.PutUint32(scratch[aIovR-128+4:], 4)
+	return scratch
 }
